@@ -643,14 +643,23 @@ Fixpoint insert_ev (ev : list Z) (l : list (list Z)) : list (list Z) :=
   end.
 Definition sort_events (l : list (list Z)) : list (list Z) := fold_right insert_ev [] l.
 
+(* frames written in one round, grouped by stream (kind, id), the order of each stream preserved:
+   the order in which different streams reach the writer task within a round is scheduling noise *)
+Fixpoint insert_fr (f : list Z) (l : list (list Z)) : list (list Z) :=
+  match l with
+  | [] => [f]
+  | x :: t => if hd 0 f mod 16384 <=? hd 0 x mod 16384 then f :: l else x :: insert_fr f t
+  end.
+Definition sort_frames (l : list (list Z)) : list (list Z) := fold_right insert_fr [] l.
+
 Definition status_of (s : sys) : list obsv :=
   (match e_fail (sA s) with Some c => if s_raw s then [] else [ozs [0; c]] | None => [] end) ++
   (match e_fail (sB s) with Some c => [ozs [1; c]] | None => [] end).
 
 Definition observe (s : sys) : obsv :=
   OL [ OL (map ozs (sort_events (e_events (sA s) ++ e_events (sB s))));
-       OL (map ozs (e_log (sA s)));
-       OL (map ozs (e_log (sB s)));
+       OL (map ozs (sort_frames (e_log (sA s))));
+       OL (map ozs (sort_frames (e_log (sB s))));
        OZ (if s_raw s then 0 else pulled (e_d (sA s)));
        OZ (pulled (e_d (sB s)));
        OL (status_of s) ].
